@@ -5,6 +5,9 @@
 (* The log (NDJSON, path in the environment variable MACHINES) has one     *)
 (* line per machine emitted by a real front-end:                           *)
 (*   [id, bmrsize, doms, nprocs, nbonds, nso, ncons, want]                   *)
+(* want: what the source demands: processors, bonds, ROM size, shared      *)
+(* objects, and per processor the registers / inputs / outputs its code    *)
+(* mentions (minregs, minins, minouts; empty: no demand).                  *)
 (* nbonds: bonded sinks; nso[p] / ncons[p]: shared objects processor p is  *)
 (* linked to / named by its domain's constraint string                     *)
 (* doms[d] = [rsize, R, N, M, L, O, mode, ws, ops, prog, data] read from   *)
@@ -61,6 +64,7 @@ DomWhyNot(bmrsize, d) ==
     [] d.R < 1 \/ d.O < 1 -> "degenerate-architecture"
     [] \E i \in 1 .. Len(d.ops) - 1 : d.ops[i].rank >= d.ops[i + 1].rank -> "opcodes-unsorted-or-duplicated"
     [] Len(d.ops) = 0 -> "no-opcodes"
+    [] Len(d.prog) = 0 -> "no-program"
     [] Len(d.prog) + Len(d.data) > Pow2(d.O) -> "rom-too-small-for-code-and-data"
     [] ~Known(d) -> ""                        \* formats outside the table: the generic checks only
     [] d.ws # 0 /\ d.ws < a.natural -> "word-size-override-too-small"
@@ -81,6 +85,10 @@ WantWhyNot(m) ==
     [] m.want.nbonds >= 0 /\ m.want.nbonds # m.nbonds -> "bonds-differ-from-source"
     [] m.want.nso >= 0 /\ \E p \in 1 .. Len(m.nso) : m.nso[p] # m.want.nso -> "shared-object-links-differ-from-source"
     [] m.want.minrom > 0 /\ \E i \in 1 .. Len(m.doms) : Pow2(m.doms[i].O) < m.want.minrom -> "rom-smaller-than-source"
+    \* the registers and ports the code of processor i mentions (ROM and RAM code alike) exist
+    [] \E i \in 1 .. Len(m.want.minregs) : i <= Len(m.doms) /\ Pow2(m.doms[i].R) < m.want.minregs[i] -> "registers-fewer-than-the-source-mentions"
+    [] \E i \in 1 .. Len(m.want.minins) : i <= Len(m.doms) /\ m.doms[i].N < m.want.minins[i] -> "inputs-fewer-than-the-source-mentions"
+    [] \E i \in 1 .. Len(m.want.minouts) : i <= Len(m.doms) /\ m.doms[i].M < m.want.minouts[i] -> "outputs-fewer-than-the-source-mentions"
     [] OTHER -> ""
 
 WhyNot(m) == LET y == FirstDom(m, 1) IN IF y # "" THEN y ELSE IF SoWhyNot(m) # "" THEN SoWhyNot(m) ELSE WantWhyNot(m)
